@@ -515,6 +515,14 @@ def normal_form(tree: ast.Module) -> ast.Module:
     return tree
 
 
+def inline_condition_temps(tree: ast.Module) -> ast.Module:
+    """only the part of the normal form that matters to a type checker: condition temporaries back into their `if`"""
+    for node in ast.walk(tree):
+        if isinstance(node, (ast.FunctionDef, ast.AsyncFunctionDef)):
+            _inline_temps(node)
+    return tree
+
+
 def sort_operands(tree: ast.AST) -> ast.AST:
     """the name-dependent part (textual order of the operands of == / !=): run after alpha-normalisation"""
     return _Canon(sort_operands=True, structure=False).visit(tree)
